@@ -54,14 +54,14 @@ Lemma exec_S : forall f p s is, exec (S f) p s is =
                 match take_args (f_params fn) (stack s) [] with
                 | None => Trap
                 | Some (args, k) =>
-                    let callee := mkSt [] (args ++ repeat 0 (f_locals fn)) (globals s) (mem s) (gas s) (charged s) in
+                    let callee := mkSt [] (args ++ repeat 0 (f_locals fn)) (globals s) (mem s) (gas s) (charged s) (spent s) in
                     let finish (s' : state) :=
                       if f_result fn then
                         match stack s' with
-                        | v :: _ => Some (mkSt (v :: k) (locals s) (globals s') (mem s') (gas s') (charged s'))
+                        | v :: _ => Some (mkSt (v :: k) (locals s) (globals s') (mem s') (gas s') (charged s') (spent s'))
                         | [] => None
                         end
-                      else Some (mkSt k (locals s) (globals s') (mem s') (gas s') (charged s')) in
+                      else Some (mkSt k (locals s) (globals s') (mem s') (gas s') (charged s') (spent s')) in
                     match exec f p callee (f_body fn) with
                     | Normal s' | Ret s' | Branch _ s' =>
                         match finish s' with Some s'' => exec f p s'' rest | None => Trap end
@@ -128,7 +128,7 @@ Inductive same_out : outcome -> outcome -> Prop :=
 Lemma same_set_stack : forall s t k, same s t -> same (set_stack s k) (set_stack t k).
 Proof. intros s t k (H1 & H2 & H3 & H4). repeat split; cbn; auto. Qed.
 
-Definition is_charge (i : instr) : bool := match i with Charge _ => true | _ => false end.
+Definition is_charge (i : instr) : bool := match i with Charge _ | Tick _ => true | _ => false end.
 
 Lemma step_simple_same : forall i s t, same s t -> is_charge i = false ->
   match step_simple i s, step_simple i t with
@@ -137,7 +137,7 @@ Lemma step_simple_same : forall i s t, same s t -> is_charge i = false ->
   | _, _ => False
   end.
 Proof.
-  intros i [k l g m ga ch] [k' l' g' m' ga' ch'] (H1 & H2 & H3 & H4) Hc. cbn in H1, H2, H3, H4. subst.
+  intros i [k l g m ga ch sp] [k' l' g' m' ga' ch' sp'] (H1 & H2 & H3 & H4) Hc. cbn in H1, H2, H3, H4. subst.
   destruct i; try discriminate; cbn; auto;
     repeat match goal with
            | |- context[match ?x with _ => _ end] => destruct x
@@ -163,14 +163,20 @@ Proof.
   rewrite erase_cons.
   match type of H with ?x = r => change (Is x r) in H end.
   destruct (is_charge i) eqn:Hc.
-  - (* Charge: disappears *)
-    destruct i; try discriminate. cbn [erase_i app]. cbn [step_simple] in H.
-    destruct (gas s <? c); [unfold Is in H; congruence|]. unfold Is in H.
-    assert (Hs' : same (mkSt (stack s) (locals s) (globals s) (mem s) (gas s - c) (charged s + c)) t)
-      by (destruct Hs as (A & B & C & D); repeat split; cbn; auto).
-    destruct (IH _ _ _ _ _ Hs' H Hg Hf) as (r' & Hr' & Hso).
-    exists r'. split; [|exact Hso]. apply exec_mono; [exact Hr'|].
-    inversion Hso; subst; discriminate.
+  - (* Charge / Tick: disappear *)
+    destruct i; try discriminate; cbn [erase_i app]; cbn [step_simple] in H.
+    + destruct (gas s <? c); [unfold Is in H; congruence|]. unfold Is in H.
+      assert (Hs' : same (mkSt (stack s) (locals s) (globals s) (mem s) (gas s - c) (charged s + c) (spent s)) t)
+        by (destruct Hs as (A & B & C & D); repeat split; cbn; auto).
+      destruct (IH _ _ _ _ _ Hs' H Hg Hf) as (r' & Hr' & Hso).
+      exists r'. split; [|exact Hso]. apply exec_mono; [exact Hr'|].
+      inversion Hso; subst; discriminate.
+    + unfold Is in H.
+      assert (Hs' : same (mkSt (stack s) (locals s) (globals s) (mem s) (gas s) (charged s) (spent s + c)) t)
+        by (destruct Hs as (A & B & C & D); repeat split; cbn; auto).
+      destruct (IH _ _ _ _ _ Hs' H Hg Hf) as (r' & Hr' & Hso).
+      exists r'. split; [|exact Hso]. apply exec_mono; [exact Hr'|].
+      inversion Hso; subst; discriminate.
   - pose proof (step_simple_same i s t Hs Hc) as Hst.
     destruct (step_simple i s) as [o|] eqn:Es; destruct (step_simple i t) as [o'|] eqn:Et; try contradiction.
     + (* straight-line instruction *)
